@@ -1133,7 +1133,7 @@ impl StoryState {
         if !container.turn_index_should_be_counted {
             return Err(StoryError::InvalidStoryState(format!(
                 "TURNS_SINCE() for target ({}) unknown.",
-                container.name.as_ref().unwrap()
+                container.name.as_deref().unwrap_or_default()
             )));
         }
 
